@@ -1,9 +1,23 @@
 // Harness for C11 (work-connection pool).  Drivers: pool (scripted client against an in-process
-// frps), handoff (vhost / group hand-off channels).
+// frps), handoff (vhost / group hand-off channels), visitor (InternalListener + stcp accept loop),
+// sendfault (control connection whose writes fail).
 package main
 
-import "verifharness/hx"
+import (
+	"io"
+
+	golog "github.com/fatedier/golib/log"
+
+	"github.com/fatedier/frp/pkg/util/log"
+	"verifharness/hx"
+)
 
 var drivers = map[string]hx.DriverFn{}
+
+// quiet silences frp's logger without a file writer (a rotating file writer on /dev/null renames the
+// device node at the daily rotation).
+func quiet() {
+	log.Logger = log.Logger.WithOptions(golog.WithOutput(io.Discard), golog.WithLevel(golog.ErrorLevel))
+}
 
 func main() { hx.Main(drivers) }
